@@ -457,6 +457,7 @@ func c10Main(c *hx.Ctx) {
 	}
 	c10CodecHistories(c, pristine)
 	c10ParamHistories(c, pristine)
+	c10SharedParamsObject(c, pristine)
 	c10Objects(c)
 	c.Sample(map[string]any{"syntaxes": len(c10Syntaxes()), "solo_cache": len(s.soOC)})
 }
@@ -652,6 +653,96 @@ func c10ParamHistories(c *hx.Ctx, pristine map[string]reflect.Value) {
 			if !same {
 				c10Fail(c, hx.Failure{Class: "c10-codec-object-param-history-dec-" + sy.Name, What: "Decode on the registered codec object differs from a fresh codec object after earlier calls with other parameters",
 					Input: in, Expected: "identical bytes (" + dwoc[:2] + ")", Actual: doc[:2]})
+			}
+		}
+	}
+}
+
+// c10SharedParamsObject: ONE parameters object carrying slice-valued and scaled settings is handed to a
+// multi-frame Encode whose frames are byte-identical, and then to a second call. "Output frame i depends only on
+// input frame i, the frame description and the parameters": equal frames must give equal outputs within the call
+// and across calls, equal to what a fresh codec gives with a freshly built object, and the slices the caller put
+// into the object must still hold the caller's values afterwards.
+func c10SharedParamsObject(c *hx.Ctx, pristine map[string]reflect.Value) {
+	reg := dcodec.GetGlobalRegistry()
+	type setting struct {
+		name string
+		mk   func() any
+	}
+	groups := map[string][][]setting{
+		"j2k91": {
+			{{"numLevels", func() any { return 2 }}, {"subbandSteps", func() any { return []float64{1.5, 2, 2, 2.5, 3, 3, 3.5} }}, {"quantStepScale", func() any { return 1.5 }}},
+			{{"numLevels", func() any { return 1 }}, {"subbandSteps", func() any { return []float64{0.75, 1.25, 1.25, 2} }}, {"quantStepScale", func() any { return 0.5 }}},
+			{{"rateLevels", func() any { return []int{40, 20, 10} }}, {"rate", func() any { return 40 }}},
+		},
+		"j2k90": {
+			{{"rateLevels", func() any { return []int{40, 20, 10} }}, {"rate", func() any { return 40 }}, {"numLayers", func() any { return 3 }}},
+		},
+	}
+	groups["j2k93"] = groups["j2k91"]
+	groups["j2k92"] = groups["j2k90"]
+	for _, sy := range c10Syntaxes() {
+		cd, ok := reg.GetCodec(sy.TS)
+		gs := groups[sy.Name]
+		if !ok || len(gs) == 0 || c10FreshCodec(pristine, sy.Name) == nil {
+			continue
+		}
+		for gi, g := range gs {
+			build := func() (dcodec.Parameters, []any) {
+				p := c10FreshCodec(pristine, sy.Name).GetDefaultParameters()
+				vals := []any{}
+				for _, st := range g {
+					v := st.mk()
+					p.SetParameter(st.name, v)
+					vals = append(vals, v)
+				}
+				return p, vals
+			}
+			for _, i := range []c10Info{{16, 12, 1, 8, 8}, {9, 7, 3, 8, 8}, {16, 12, 1, 16, 12}} {
+				f := c10Frame(c.R, i, gi)
+				shared, held := build()
+				desc := []string{}
+				for _, st := range g {
+					desc = append(desc, fmt.Sprintf("%s=%v", st.name, st.mk()))
+				}
+				in := map[string]any{"ts": sy.Name, "info": i.String(), "params": desc, "seed": c.Seed, "frame_hex": hx.Hex(f)}
+				freshP, _ := build()
+				want, woc := c10Run(c10FreshCodec(pristine, sy.Name), true, i, [][]byte{f}, freshP)
+				for call := 0; call < 2; call++ {
+					got, oc := c10Run(cd, true, i, [][]byte{f, f, f}, shared)
+					c.Eval(fmt.Sprintf("shared-params|%s|%d|%s|%d", sy.Name, gi, i.String(), call), true)
+					c.Count("shared-params")
+					if oc[:2] != woc[:2] {
+						c10Fail(c, hx.Failure{Class: "c10-shared-params-object-" + sy.Name, What: "Encode with a shared parameters object and a fresh codec with a fresh equal object disagree on the outcome",
+							Input: in, Expected: woc, Actual: oc})
+						break
+					}
+					if oc != "ok" {
+						c.Count("shared-params-rejected:" + sy.Name)
+						break
+					}
+					bad := -1
+					for k := range got {
+						if len(want) != 1 || !bytes.Equal(got[k], want[0]) {
+							bad = k
+							break
+						}
+					}
+					if bad >= 0 {
+						in["call"], in["frame"] = call, bad
+						c10Fail(c, hx.Failure{Class: "c10-shared-params-object-" + sy.Name, What: "identical frames encoded with one parameters object give different bytes (frame index or earlier call matters)",
+							Input: in, Expected: "every frame equal to the fresh single-frame encode", Actual: fmt.Sprintf("frame %d of call %d differs", bad, call)})
+						break
+					}
+				}
+				// the caller's own slices must still hold what the caller put there
+				for k, st := range g {
+					if !reflect.DeepEqual(held[k], st.mk()) {
+						in["setting"] = st.name
+						c10Fail(c, hx.Failure{Class: "c10-shared-params-object-" + sy.Name, What: "Encode modified a slice the caller placed in the parameters object",
+							Input: in, Expected: fmt.Sprint(st.mk()), Actual: fmt.Sprint(held[k])})
+					}
+				}
 			}
 		}
 	}
